@@ -448,3 +448,56 @@ def run_parallel(jobs, wd, workers=8):
     with concurrent.futures.ThreadPoolExecutor(max_workers=workers) as ex:
         list(ex.map(one, enumerate(jobs)))
     return jobs
+
+
+# ------------------------------------------------------------------------------------------------ reference FIRST (textbook least fixpoint)
+def ref_first(rules, nnt):
+    """FIRST of every nonterminal by the textbook rules: least sets with  X -> Y1..Yk: FIRST(X) >= FIRST(Y1)\\{eps}, and FIRST(Yi+1)\\{eps} while Y1..Yi are
+    nullable, eps if all are (k = 0 included).  Elements: ('t', k) and 'eps'."""
+    F = [set() for _ in range(nnt)]
+    ch = True
+    while ch:
+        ch = False
+        for l, r in rules:
+            add = set(); alln = True
+            for s in r:
+                fs = {s} if s[0] == 't' else F[s[1]]
+                add |= {x for x in fs if x != 'eps'}
+                if 'eps' not in fs: alln = False; break
+            if alln: add.add('eps')
+            if not add <= F[l]: F[l] |= add; ch = True
+    return F
+
+
+def ref_first_string(F, string):
+    out = set(); alln = True
+    for s in string:
+        fs = {s} if s[0] == 't' else F[s[1]]
+        out |= {x for x in fs if x != 'eps'}
+        if 'eps' not in fs: alln = False; break
+    if alln: out.add('eps')
+    return out
+
+
+def check_first(g, tab):
+    """compare the FIRST sets the real generator computed (on the grammar augmented by S' -> S and E -> eof, as elements() does) with the reference.
+    Returns a list of differences (empty: equal)."""
+    nnt = g['nnt']
+    rules = list(g['rules']) + [(nnt, [N(g['start'])]), (nnt + 1, [T(g['eof'])])]
+    F = ref_first(rules, nnt + 2)
+    def dec(s): return 'eps' if s[0] == 0 else ('t', s[1]) if s[0] == 1 else ('n', s[1])
+    got = {dec(e['sym']): {dec(x) for x in e['first']} for e in tab['first_sets']}
+    diffs = []
+    for x in range(nnt + 2):
+        have = got.get(('n', x), set())
+        if have != F[x]: diffs.append({'symbol': 'nonterminal %d' % x, 'generator': sorted(map(str, have)), 'reference': sorted(map(str, F[x]))})
+    used = {s for _, r in rules for s in r if s[0] == 't'}
+    for t in sorted(used):
+        if got.get(t) != {t}: diffs.append({'symbol': 'terminal %d' % t[1], 'generator': sorted(map(str, got.get(t, set()))), 'reference': [str(t)]})
+    mt = max([t[1] for t in used] + [0])
+    if tab['max_used_terminal'] != mt: diffs.append({'symbol': 'max_used_terminal', 'generator': tab['max_used_terminal'], 'reference': mt})
+    for e in tab.get('first_strings', []):
+        string = [dec(s) for s in e['string']]
+        want = ref_first_string(F, string); have = {dec(x) for x in e['first']}
+        if want != have: diffs.append({'symbol': 'first(%s)' % ' '.join(map(str, string)), 'generator': sorted(map(str, have)), 'reference': sorted(map(str, want))})
+    return diffs
